@@ -7,7 +7,7 @@
   is not fused and may return an early `None` — `row_hits_interval` shows it never does).
   `Circle.InRange` = the bounding box does not saturate / overflow `i32` (decidable guard).
 -/
-import EG.Lemmas.CirclePoints
+import EG.Lemmas.CircleStyled
 namespace EG.C05
 open EG EG.Circle
 
@@ -66,4 +66,17 @@ theorem circle_points_inside_bbox (c : Circle) (h : c.InRange) (p : Pt) (hp : p 
   circle_contains_inside_bbox c p ((circle_mem_points_iff c h p).mp hp)
 example : (⟨0, 1⟩ : Pt) ∈ (⟨⟨0, 0⟩, 3⟩ : Circle).points := by decide
 
+/-- The (non-fused) scanline iterator never returns its early `None`: a `for` loop over it sees
+one scanline for every row of the bounding box, in order. -/
+theorem circle_scanlines_cover_all_rows (c : Circle) (h : c.InRange) :
+    c.scanlines.toList.map (·.y) = irange c.tl.y (c.tl.y + c.d) := by
+  rw [Circle.scanlines_toList_eq h, List.map_map]
+  have : ∀ y ∈ irange c.tl.y (c.tl.y + c.d),
+      ((fun s : Scanline => s.y) ∘ fun y => (c.scanlines.row y).getD default) y = id y := by
+    intro y hy
+    rw [mem_irange] at hy
+    exact (Circle.row_scanOK h hy.1 hy.2).1
+  rw [List.map_congr_left this, List.map_id]
+
+-- [V] circles whose bounding box leaves the i32 range (guard `Circle.InRange` false; the real code saturates or panics on overflow there, C08's topic): carried by correspondence + oracle only
 end EG.C05
